@@ -874,7 +874,7 @@ def run_e_one(chk, sseed):
         sb.destroy()
 
 
-def run_f_one(chk, sseed):
+def run_f_one(chk, sseed, first_off=None):
     """two repositories of one process on one TLS host, one with `http2-disable`, one without, constructed in either order with
     the same TLS settings: the connection of the one with http2-disable must not negotiate HTTP/2 (the server offers h2 and
     http/1.1 by ALPN and records what was chosen), and its file must arrive over HTTP/1.1"""
@@ -890,7 +890,8 @@ def run_f_one(chk, sseed):
                require_client=False, alpn=["h2", "http/1.1"])
     srv = httpd.Server(behaviour, tls=tls)
     root = fsutil.workdir("c18f")
-    first_off = rng.random() < 0.4
+    r_first = rng.random() < 0.4
+    first_off = r_first if first_off is None else first_off
     use_allowed_first = rng.random() < 0.5
     replay = {"part": "F", "scenario_seed": sseed, "http2_disabled_repository_constructed_first": first_off}
     try:
@@ -938,7 +939,9 @@ def run_f_one(chk, sseed):
 def run(chk, tier, rng):
     quick = tier == "quick"
     for i in range(6 if quick else 60):
-        run_f_one(chk, f"C18F-{chk.seed}-{i}")
+        # (what a process keeps for its whole life is decided by the first construction: the very first scenario of the check
+        # builds the repository that may use HTTP/2 first)
+        run_f_one(chk, f"C18F-{chk.seed}-{i}", first_off=False if i == 0 else None)
     for i in range(6 if quick else 100):
         run_e_one(chk, f"C18E-{chk.seed}-{i}")
     part_a(chk, rng, 60 if quick else 1500)
